@@ -10,12 +10,221 @@ From Sylt Require Import Pres.Frag.
 From Sylt Require Import Pres.SimDefs Pres.SimOps Pres.SimVals.
 From Sylt Require Import Pres.SimExpr Pres.LowerShape Pres.SimSteps Pres.SimExprProofs.
 From Sylt Require Import Pres.LuaLoop.
-From Sylt Require Import Pres.NoExit Pres.SimStmt.
+From Sylt Require Import Pres.NoExit Pres.SimStmt Pres.RunEq.
 From Sylt Require Import Lua.LuaAst Lua.LuaMap Lua.LuaNum Lua.LuaProofs Lua.LuaCore.
 Import ListNotations.
 Local Open Scope N_scope.
 
 Ltac splits := repeat match goal with |- _ /\ _ => split end.
+
+Lemma definition_fun f var name params ret body pure sp ctx :
+  definition (S f) var (EFunction name params ret body pure sp) ctx =
+  (_ <- fresh ;; bc <- lower_fbody (statement f) (expression f) body ctx ;;
+   IR.ret (IFunction var (param_ids params) :: bc ++ [IEnd])).
+Proof. reflexivity. Qed.
+
+
+Section CFun.
+Variable u : counts.
+(* `local function V<f>(ps) <body> end` *)
+Lemma cshape_fun l f ps cb bb l1 c c' :
+  cshape u l cb bb l1 (c + 1) c' -> alut_get l f = None ->
+  cshape u l (IFunction f ps :: cb ++ [IEnd]) [SLocalFun (fmt_var f) (map fmt_var ps) bb] l1 c c'.
+Proof.
+  intros (H & Hc & Hf & _) Hlf. split; [|split; [lia | split; [eapply lut_frame_widen; [exact Hf | lia | lia] | repeat constructor]]].
+  pose proof (Em_fun u l f ps cb bb l1 [] [] l1 H (Em_nil u l1)) as He. unfold aname in He. rewrite Hlf in He. exact He.
+Qed.
+
+End CFun.
+
+(* ------------------------------------------------------------------ function definitions at chunk level *)
+
+(* the world after the definition of the function d *)
+Definition world_add (W : world) (d : fdyn) : world :=
+  mkWorld (fun c x => w_IS W c x \/ (c = fd_cf d /\ x = SyltSem.SClos (fd_ci d)))
+          (fun p lv => w_IL W p lv \/ (p = fd_pf d /\ lv = VFun (fd_fid d)))
+          (w_CS W) (w_CL W)
+          (d :: w_funs W).
+
+Section DefFun.
+Variable pv : N.
+Variable sv : N.
+Variable bound : N.
+Variable u : counts.
+
+Notation ctx_ok := (ctx_ok bound).
+
+(* the Lua state after `local function V<fv>(ps) b end` *)
+Definition lua_def_state (stL : state) (E1 : env) (ps : list N) (b : block) : state :=
+  set_cell (snd (alloc_closure (snd (alloc_cell stL VNil)) (mkClosure E1 (map fmt_var ps) b))) (s_ncell stL) (VFun (s_nclo stL)).
+
+Lemma lua_def_old stL E1 ps b p : (p < s_ncell stL)%positive -> get_cell (lua_def_state stL E1 ps b) p = get_cell stL p.
+Proof.
+  intros Hp. unfold lua_def_state. rewrite get_cell_set_other by lia.
+  change (get_cell (snd (alloc_cell stL VNil)) p = get_cell stL p). apply get_cell_alloc_old. exact Hp.
+Qed.
+
+Lemma linv_lua_def stL E1 ps b : linv stL -> linv (lua_def_state stL E1 ps b).
+Proof.
+  intros Hli. apply linv_set_cell. destruct Hli as [Hd Hg [Hc] Hn]. constructor.
+  - exact Hd.
+  - exact Hg.
+  - constructor. unfold alloc_closure, alloc_cell. cbn [snd s_clos s_nclo]. rewrite pget_pset_other; [exact Hc | lia].
+  - unfold alloc_closure, alloc_cell. cbn [snd s_nclo]. lia.
+Qed.
+
+(* `local function V<fv>(ps) <body> end` for a top-level function: it joins the callable functions and the
+   world; the description d records its code, its cells and its closure environments *)
+Lemma rel_define_function fl W sc e st E stL fv ps body g k scout bc ctx c c2 l :
+  rel pv sv bound u fl W sc e st E stL ->
+  (forall d, In d (w_funs W) -> In (fd_var d) (fnames fl)) ->
+  fresh_id pv sv bound fl sc fv = true ->
+  params_ok pv sv bound ((fv, length ps) :: fl) sc ps = true ->
+  frag_body pv sv bound k ((fv, length ps) :: fl) (rev ps ++ sc) body = Some scout ->
+  lower_fbody (statement g) (expression g) body ctx c = Ok (bc, c2) ->
+  ucovers u bc -> bound <= c -> lut_ok bound l c c2 -> E_free E c c2 ->
+  let E1 := sset (fmt_var fv) (s_ncell stL) E in
+  let d := mkFdyn fv ps body sc ((fv, length ps) :: fl) g k scout bc ctx c c2 l
+                  (length (SyltSem.cells st)) (length (SyltSem.clos st)) (def_env fv e st)
+                  (s_ncell stL) (s_nclo stL) E1 in
+  rel pv sv bound u ((fv, length ps) :: fl) (world_add W d) sc (def_env fv e st) (def_state fv ps body e st)
+      E1 (lua_def_state stL E1 ps (fbody u d)) /\
+  (forall d', In d' (w_funs (world_add W d)) -> In (fd_var d') (fnames ((fv, length ps) :: fl))).
+Proof.
+  intros Hrel Hall Hfresh Hpok Hfb Hlow Hub Hbc Hlut HEf E1 d.
+  pose proof Hrel as [Hv Hb Hi Hp Hpb HpE HpG Hwf Ht Hli HW].
+  destruct (fresh_id_inv _ _ _ _ _ _ Hfresh) as (Hnin & Hnpv & Hnsv & Hfvb).
+  pose proof (fresh_id_fl _ _ _ _ _ _ Hfresh) as Hnfl.
+  set (fl' := (fv, length ps) :: fl) in *.
+  assert (Hold : forall p, (p < s_ncell stL)%positive -> get_cell (lua_def_state stL E1 ps (fbody u d)) p = get_cell stL p)
+    by (intros p Hp'; apply lua_def_old; exact Hp').
+  assert (Hwf1 : wfenv E1 (lua_def_state stL E1 ps (fbody u d))).
+  { pose proof (wfenv_local E stL fv VNil Hwf) as [HV Hin Ha]. constructor; [exact HV | exact Hin |].
+    intros x p H. specialize (Ha x p H). cbn in *. exact Ha. }
+  assert (Hcl : forall v c0, In v sc -> SyltSem.lookup e v = Some c0 -> (c0 < length (SyltSem.cells st))%nat).
+  { intros v c0 Hvin Hlk. destruct (Hv v Hvin) as (c1 & x & p & H1 & H2 & _). rewrite Hlk in H1. inversion H1; subst. apply nth_error_Some. congruence. }
+  (* the static facts about the new function *)
+  assert (Hstatic : fstatic pv sv bound u d).
+  { constructor; cbn [d fd_var fd_params fd_body fd_sc fd_fl fd_g fd_k fd_scout fd_code fd_c fd_c' fd_lut fd_ef fd_Ef].
+    - exact Hlow.
+    - exact Hfb.
+    - exact Hpok.
+    - left. reflexivity.
+    - splits; assumption.
+    - exact Hb.
+    - intros g0 [<-|Hg]; [split; assumption|]. unfold fnames in Hg. apply in_map_iff in Hg as ((f & ar) & <- & Hf).
+      destruct (wi_cover _ _ _ _ _ _ _ _ _ _ _ HW f ar Hf) as (d0 & Hd0 & <- & _).
+      destruct (wi_fun _ _ _ _ _ _ _ _ _ _ _ HW d0 Hd0) as (Hs0 & _ & _). destruct (fs_var _ _ _ _ _ Hs0) as (A & B & _). split; assumption.
+    - exact Hub.
+    - exact Hbc.
+    - exact Hlut.
+    - intros t0 Ht0. unfold E1. rewrite sget_sset_var by lia. apply HEf. exact Ht0.
+    - unfold E1. rewrite sget_sset_var by (intros Heq; apply Hnpv; symmetry; exact Heq). exact HpE.
+    - apply (wf_V _ _ Hwf1).
+    - apply (wf_inj _ _ Hwf1).
+    - destruct Hp as (cp & Hlkp & _). exists cp. unfold def_env. cbn [SyltSem.lookup]. destruct (N.eqb_spec fv pv); [congruence | exact Hlkp]. }
+  (* how the old functions see the new environments *)
+  assert (HvisS : forall d0, In d0 (w_funs W) -> fvisS pv (def_env fv e st) d0).
+  { intros d0 Hd0. pose proof (Hall d0 Hd0) as Hvis0. destruct (wi_vsc _ _ _ _ _ _ _ _ _ _ _ HW d0 Hd0 Hvis0) as [Hisc Hifl].
+    apply (fvisS_same pv e _ d0 (wi_visS _ _ _ _ _ _ _ _ _ _ _ HW d0 Hd0 Hvis0)).
+    - unfold def_env. cbn [SyltSem.lookup]. destruct (N.eqb_spec fv (fd_var d0)) as [Heq|]; [|reflexivity]. exfalso. apply Hnfl. rewrite Heq. exact Hvis0.
+    - intros g0 Hg. unfold def_env. cbn [SyltSem.lookup]. destruct (N.eqb_spec fv g0) as [Heq|]; [|reflexivity]. exfalso. subst g0.
+      destruct Hg as [[Hg|Hg]|Hg]; [apply Hnin, Hisc, Hg | apply Hnfl; unfold fnames in *; apply (incl_map fst Hifl); exact Hg | apply Hnpv; exact Hg]. }
+  assert (HvisL : forall d0, In d0 (w_funs W) -> fvisL E1 d0).
+  { intros d0 Hd0. pose proof (Hall d0 Hd0) as Hvis0. destruct (wi_vsc _ _ _ _ _ _ _ _ _ _ _ HW d0 Hd0 Hvis0) as [Hisc Hifl].
+    apply (fvisL_same E _ d0 (wi_visL _ _ _ _ _ _ _ _ _ _ _ HW d0 Hd0 Hvis0)).
+    - apply sget_sset_var. intros Heq. apply Hnfl. rewrite <- Heq. exact Hvis0.
+    - intros g0 [Hg|Hg]; apply sget_sset_var; intros Heq; subst g0;
+        [apply Hnin, Hisc, Hg | apply Hnfl; unfold fnames in *; apply (incl_map fst Hifl); exact Hg]. }
+  assert (HselfS : fvisS pv (def_env fv e st) d).
+  { constructor; cbn [d fd_var fd_cf fd_ef]; [unfold def_env; cbn [SyltSem.lookup]; rewrite N.eqb_refl; reflexivity | reflexivity]. }
+  assert (HselfL : fvisL E1 d).
+  { constructor; cbn [d fd_var fd_pf fd_Ef]; [apply sget_sset_same | reflexivity]. }
+  split.
+  2: { intros d' [<-|Hd']; [left; reflexivity | right; apply Hall; exact Hd']. }
+  constructor.
+  - intros w Hw. destruct (Hv w Hw) as (cc & x & p & H1 & H2 & H3 & H4).
+    assert (Hne : w <> fv) by (intros ->; contradiction).
+    exists cc, x, p. unfold def_env, def_state. cbn [SyltSem.lookup SyltSem.cells]. destruct (N.eqb_spec fv w); [congruence|].
+    splits; [exact H1 | apply nth_error_app_old; exact H2 | unfold E1; rewrite sget_sset_var by exact Hne; exact H3 |].
+    rewrite Hold; [exact H4 | eapply wf_alloc; eassumption].
+  - exact Hb.
+  - intros v1 v2 cc H1 H2. unfold def_env. cbn [SyltSem.lookup].
+    destruct (N.eqb_spec fv v1) as [->|]; [contradiction|]. destruct (N.eqb_spec fv v2) as [->|]; [contradiction|].
+    apply Hi; assumption.
+  - destruct Hp as (cp & Hlkp & Hnthp & Hdist).
+    exists cp. unfold def_env, def_state. cbn [SyltSem.lookup SyltSem.cells]. destruct (N.eqb_spec fv pv); [congruence|].
+    splits; [exact Hlkp | apply nth_error_app_old; exact Hnthp |].
+    intros w Hw. destruct (N.eqb_spec fv w) as [->|]; [contradiction|]. apply Hdist. exact Hw.
+  - exact Hpb.
+  - unfold E1. rewrite sget_sset_var by (intros Heq; apply Hnpv; symmetry; exact Heq). exact HpE.
+  - eapply glob_frame; [|exact HpG]. reflexivity.
+  - exact Hwf1.
+  - exact Ht.
+  - apply linv_lua_def. exact Hli.
+  - (* the world *)
+    constructor; cbn [world_add w_IS w_IL w_CS w_CL w_funs].
+    + intros c0 x [Hx|[-> ->]]; unfold def_state; cbn [SyltSem.cells].
+      * pose proof (wi_IS _ _ _ _ _ _ _ _ _ _ _ HW c0 x Hx). rewrite nth_error_app1; [assumption | apply nth_error_Some; congruence].
+      * cbn [d fd_cf fd_ci]. apply nth_error_app_new.
+    + intros p lv [Hq|[-> ->]].
+      * destruct (wi_IL _ _ _ _ _ _ _ _ _ _ _ HW p lv Hq) as [Ha Hlt]. split; [rewrite Hold by exact Hlt; exact Ha|].
+        unfold lua_def_state, set_cell, alloc_closure, alloc_cell. cbn [snd s_ncell]. lia.
+      * cbn [d fd_pf fd_fid]. split; [unfold lua_def_state; apply get_cell_set_same|].
+        unfold lua_def_state, set_cell, alloc_closure, alloc_cell. cbn [snd s_ncell]. lia.
+    + intros ci cl Hx. pose proof (wi_CS _ _ _ _ _ _ _ _ _ _ _ HW ci cl Hx) as Hn0.
+      unfold def_state. cbn [SyltSem.clos]. rewrite nth_error_app1; [exact Hn0 | apply nth_error_Some; congruence].
+    + intros fid c0 Hx. destruct (wi_CL _ _ _ _ _ _ _ _ _ _ _ HW fid c0 Hx) as [A B].
+      unfold lua_def_state, set_cell, alloc_closure, alloc_cell. cbn [snd s_clos s_nclo]. rewrite pget_pset_other by lia. split; [exact A | lia].
+    + intros d0 [<-|Hd0]; [left; reflexivity | right; apply Hall; exact Hd0].
+    + intros d0 [<-|Hd0].
+      * cbn [d fd_ci fd_params fd_body fd_ef fd_fid fd_Ef]. splits.
+        -- unfold def_state. cbn [SyltSem.clos]. apply nth_error_app_new.
+        -- unfold lua_def_state, set_cell, alloc_closure, alloc_cell. cbn [snd s_clos s_nclo]. apply pget_pset_same.
+        -- apply (wf_alloc _ _ Hwf1).
+        -- unfold lua_def_state, set_cell, alloc_closure, alloc_cell. cbn [snd s_nclo]. lia.
+        -- unfold def_state. cbn [SyltSem.clos]. rewrite app_length. cbn [length]. lia.
+      * destruct (wi_clos _ _ _ _ _ _ _ _ _ _ _ HW d0 Hd0) as (A & B & C & D & F).
+        splits.
+        -- unfold def_state. cbn [SyltSem.clos]. rewrite nth_error_app1 by exact F. exact A.
+        -- unfold lua_def_state, set_cell, alloc_closure, alloc_cell. cbn [snd s_clos s_nclo]. rewrite pget_pset_other by lia. exact B.
+        -- intros x p Hx. specialize (C x p Hx). unfold lua_def_state, set_cell, alloc_closure, alloc_cell. cbn [snd s_ncell]. lia.
+        -- unfold lua_def_state, set_cell, alloc_closure, alloc_cell. cbn [snd s_nclo]. lia.
+        -- unfold def_state. cbn [SyltSem.clos]. rewrite app_length. lia.
+    + intros d0 [<-|Hd0].
+      * splits; [exact Hstatic | right; split; reflexivity | right; split; reflexivity].
+      * destruct (wi_fun _ _ _ _ _ _ _ _ _ _ _ HW d0 Hd0) as (A & B & C). splits; [exact A | left; exact B | left; exact C].
+    + intros d1 d2 [<-|Hd1] [<-|Hd2] Hvis12.
+      * splits; [exact HselfS | exact HselfL | apply incl_refl | apply incl_refl].
+      * cbn [d fd_fl fd_ef fd_Ef fd_sc] in *. pose proof (Hall d2 Hd2) as Hvis2.
+        destruct (wi_vsc _ _ _ _ _ _ _ _ _ _ _ HW d2 Hd2 Hvis2) as [Hisc Hifl].
+        splits; [apply HvisS; exact Hd2 | apply HvisL; exact Hd2 | exact Hisc | apply incl_tl; exact Hifl].
+      * exfalso. pose proof (Hall d1 Hd1) as Hvis1. destruct (wi_vsc _ _ _ _ _ _ _ _ _ _ _ HW d1 Hd1 Hvis1) as [_ Hifl].
+        apply Hnfl. cbn [d fd_var] in Hvis12. unfold fnames in *. apply (incl_map fst Hifl). exact Hvis12.
+      * apply (wi_inter _ _ _ _ _ _ _ _ _ _ _ HW d1 d2 Hd1 Hd2 Hvis12).
+    + intros f ar [Heq|Hf].
+      * inversion Heq; subst f ar. exists d. splits; [left; reflexivity | reflexivity | reflexivity].
+      * destruct (wi_cover _ _ _ _ _ _ _ _ _ _ _ HW f ar Hf) as (d0 & A & B & C). exists d0. splits; [right; exact A | exact B | exact C].
+    + intros d1 d2 [<-|Hd1] [<-|Hd2] Heq; [reflexivity | | |].
+      * exfalso. apply Hnfl. cbn [d fd_var] in Heq. rewrite Heq. apply Hall. exact Hd2.
+      * exfalso. apply Hnfl. cbn [d fd_var] in Heq. rewrite <- Heq. apply Hall. exact Hd1.
+      * apply (wi_uniq _ _ _ _ _ _ _ _ _ _ _ HW d1 d2 Hd1 Hd2 Heq).
+    + intros v c0 x Hvin Hlk [Hx|[-> _]]; unfold def_env in Hlk; cbn [SyltSem.lookup] in Hlk;
+        (destruct (N.eqb_spec fv v) as [->|]; [contradiction|]).
+      * exact (wi_scS _ _ _ _ _ _ _ _ _ _ _ HW v c0 x Hvin Hlk Hx).
+      * cbn [d fd_cf] in Hlk. specialize (Hcl v _ Hvin Hlk). lia.
+    + intros v Hvin [Heq|Hf]; [cbn [fst] in Heq; subst v; contradiction | exact (wi_scfl _ _ _ _ _ _ _ _ _ _ _ HW v Hvin Hf)].
+    + intros v p lv Hvin Hq [Hx|[-> _]]; unfold E1 in Hq; rewrite sget_sset_var in Hq by (intros ->; contradiction).
+      * exact (wi_lprot _ _ _ _ _ _ _ _ _ _ _ HW v p lv Hvin Hq Hx).
+      * cbn [d fd_pf] in Hq. pose proof (wf_alloc _ _ Hwf _ _ Hq). lia.
+    + intros d0 [<-|Hd0] _; [exact HselfS | apply HvisS; exact Hd0].
+    + intros d0 [<-|Hd0] _; [exact HselfL | apply HvisL; exact Hd0].
+    + intros d0 [<-|Hd0] _.
+      * cbn [d fd_sc fd_fl]. split; apply incl_refl.
+      * destruct (wi_vsc _ _ _ _ _ _ _ _ _ _ _ HW d0 Hd0 (Hall d0 Hd0)) as [A B]. split; [exact A | apply incl_tl; exact B].
+Qed.
+
+End DefFun.
 
 (* ------------------------------------------------------------------ association lists with different keys *)
 
@@ -62,7 +271,7 @@ Proof.
   - intros v Hin. destruct (Hv v Hin) as (c & x & p & H1 & H2 & H3 & H4). exists c, x, p. rewrite Hl. auto.
   - intros v1 v2 c. rewrite !Hl. apply Hi.
   - destruct Hp as (c & H1 & H2 & H3). exists c. rewrite Hl. splits; auto. intros v Hin. rewrite Hl. apply H3. exact Hin.
-  - destruct HW as [H1 H2 H3 H4 H5 H6 H7 H8 H9 H10 H11 H12 H13]. constructor; auto.
+  - destruct HW as [H1 H2 HCS HCL Hav H3 H4 H5 H6 H7 H8 H9 H10 H11 H12 H13]. constructor; auto.
     + intros v c x Hin. rewrite Hl. apply H8. exact Hin.
     + intros d Hd Hvis. destruct (H11 d Hd Hvis) as [Ha Hb']. constructor; [rewrite Hl; exact Ha | intros g Hg; rewrite Hl; apply Hb'; exact Hg].
 Qed.
@@ -161,6 +370,444 @@ Qed.
 
 End Sim.
 
+(* ------------------------------------------------------------------ function bodies with local functions *)
+
+Definition is_fundef (s : Resolved.stmt) : bool :=
+  match s with SDefinition _ _ _ _ (EFunction _ _ _ _ _ _) _ => true | _ => false end.
+
+Section BodyFrag.
+Variable pv : N.
+Variable sv : N.
+Variable bound : N.
+
+Lemma frag_body_fun k fl sc nm fv kd t fname params ret body pure fsp dsp rest :
+  frag_body pv sv bound (S k) fl sc (SDefinition nm fv kd t (EFunction fname params ret body pure fsp) dsp :: rest) =
+  (if fresh_id pv sv bound fl sc fv && params_ok pv sv bound ((fv, length (param_ids params)) :: fl) sc (param_ids params)
+      && is_some (frag_body pv sv bound k ((fv, length (param_ids params)) :: fl) (rev (param_ids params) ++ sc) body)
+   then frag_body pv sv bound k ((fv, length (param_ids params)) :: fl) sc rest else None).
+Proof. reflexivity. Qed.
+
+Lemma frag_body_plain k fl sc s rest :
+  is_fundef s = false ->
+  frag_body pv sv bound (S k) fl sc (s :: rest) =
+  match frag_stmt pv sv bound fl k sc s with Some sc' => frag_body pv sv bound k fl sc' rest | None => None end.
+Proof. destruct s; try reflexivity. destruct value; try reflexivity. discriminate. Qed.
+
+Lemma frag_body_app : forall a k fl sc b r,
+  frag_body pv sv bound k fl sc (a ++ b) = Some r ->
+  exists sc1 fl1 k', frag_body pv sv bound k fl sc a = Some (sc1, fl1) /\ frag_body pv sv bound k' fl1 sc1 b = Some r.
+Proof.
+  induction a as [|s a IH]; intros k fl sc b r H.
+  - exists sc, fl, k. split; [|exact H]. destruct k; [discriminate | reflexivity].
+  - destruct k as [|k]; [discriminate|]. cbn [app] in H.
+    destruct (is_fundef s) eqn:Hf.
+    + destruct s; try discriminate Hf. destruct value; try discriminate Hf. rewrite frag_body_fun in H.
+      match type of H with (if ?c then _ else _) = _ => destruct c eqn:Hc; [|discriminate H] end.
+      destruct (IH _ _ _ _ _ H) as (sc1 & fl1 & k' & A & B). exists sc1, fl1, k'. split; [|exact B].
+      rewrite frag_body_fun, Hc. exact A.
+    + rewrite (frag_body_plain _ _ _ _ _ Hf) in H. destruct (frag_stmt pv sv bound fl k sc s) as [sc0|] eqn:Hs; [|discriminate H].
+      destruct (IH _ _ _ _ _ H) as (sc1 & fl1 & k' & A & B). exists sc1, fl1, k'. split; [|exact B].
+      rewrite (frag_body_plain _ _ _ _ _ Hf), Hs. exact A.
+Qed.
+
+Lemma frag_body_fnames : forall ss k fl sc sc' flr,
+  frag_body pv sv bound k fl sc ss = Some (sc', flr) -> incl (fnames fl) (fnames flr).
+Proof.
+  induction ss as [|s ss IH]; intros k fl sc sc' flr H; (destruct k as [|k]; [discriminate|]).
+  - cbn in H. inversion H; subst. apply incl_refl.
+  - destruct (is_fundef s) eqn:Hf.
+    + destruct s; try discriminate Hf. destruct value; try discriminate Hf. rewrite frag_body_fun in H.
+      match type of H with (if ?c then _ else _) = _ => destruct c eqn:Hc; [|discriminate H] end.
+      apply IH in H. intros x Hx. apply H. right. exact Hx.
+    + rewrite (frag_body_plain _ _ _ _ _ Hf) in H. destruct (frag_stmt pv sv bound fl k sc s) as [sc0|] eqn:Hs; [|discriminate H].
+      eapply IH; exact H.
+Qed.
+
+End BodyFrag.
+
+Section BodyShape.
+Variable pv : N.
+Variable sv : N.
+Variable bound : N.
+Variable u : counts.
+
+(* the structure of the emitted statements of a body, and of the body as a whole (the last statement, if it is
+   an expression, is returned) *)
+Definition LB (g : nat) : Prop := forall ss k ctx c cs c' sc fl scr l,
+  mapM (fun s => statement g s ctx) ss c = Ok (cs, c') ->
+  frag_body pv sv bound k fl sc ss = Some scr ->
+  (forall v, v < bound -> alut_get l v = None) -> bound <= c ->
+  exists b l', cshape u l (concat cs) b l' c c' /\ (forall v, v < bound -> alut_get l' v = None).
+
+Definition LF (g : nat) : Prop := forall body k ctx c code c' sc fl scr l,
+  lower_fbody (statement g) (expression g) body ctx c = Ok (code, c') ->
+  frag_body pv sv bound k fl sc body = Some scr ->
+  (forall v, v < bound -> alut_get l v = None) -> bound <= c ->
+  exists b l', cshape u l code b l' c c' /\ (forall v, v < bound -> alut_get l' v = None).
+
+Lemma LB_of g : (forall g', (g' < g)%nat -> LF g') -> LB g.
+Proof.
+  intros IHF ss. induction ss as [|s ss IH]; intros k ctx c cs c' sc fl scr l Hm Hf Hl Hbc.
+  - destruct (mapM_nil_ok _ _ _ _ Hm) as [-> ->]. eexists _, _. split; [apply cshape_nil | exact Hl].
+  - apply mapM_cons_ok in Hm as (y & c1 & ys & Hy & Hys & ->). cbn [concat].
+    destruct k as [|k]; [discriminate|].
+    destruct (is_fundef s) eqn:Hfd.
+    + destruct s; try discriminate Hfd. destruct value; try discriminate Hfd. rewrite frag_body_fun in Hf.
+      match type of Hf with (if ?b then _ else _) = _ => destruct b eqn:Hc; [|discriminate Hf] end.
+      apply andb_prop in Hc as [Hc Hfb]. apply andb_prop in Hc as [Hfr Hpok].
+      destruct (frag_body pv sv bound k ((var, length (param_ids params)) :: fl) (rev (param_ids params) ++ sc) body) as [scout|] eqn:Hfbody; [|discriminate Hfb].
+      destruct g as [|[|g2]]; [cbn in Hy; discriminate Hy | cbn in Hy; discriminate Hy |].
+      cbn [statement] in Hy. rewrite definition_fun in Hy. mon Hy. fresh_all.
+      destruct (IHF g2 ltac:(lia) body k ctx (c + 1) a0 c1 _ _ scout l Hm0 Hfbody Hl ltac:(lia)) as (bb & l1 & Hsb & Hl1).
+      pose proof Hsb as (_ & Hcc1 & _).
+      destruct (fresh_id_inv _ _ _ _ _ _ Hfr) as (_ & _ & _ & Hvb).
+      destruct (IH k ctx c1 ys c' sc _ scr l1 Hys Hf Hl1 ltac:(lia)) as (b2 & l2 & Hs2 & Hl2).
+      eexists _, _. split; [|exact Hl2].
+      eapply cshape_app; [apply cshape_fun; [exact Hsb | apply Hl; exact Hvb] | exact Hs2].
+    + rewrite (frag_body_plain _ _ _ _ _ _ _ _ Hfd) in Hf.
+      destruct (frag_stmt pv sv bound fl k sc s) as [sc1|] eqn:Hs; [|discriminate Hf].
+      destruct (L_stmt_all pv sv bound u fl g k s ctx c y c1 sc sc1 l Hy Hs) as (b1 & l1 & Hs1).
+      pose proof Hs1 as (_ & Hcc1 & Hfr1 & _).
+      assert (Hl1 : forall v, v < bound -> alut_get l1 v = None) by (intros v Hv; rewrite Hfr1 by lia; apply Hl; exact Hv).
+      destruct (IH k ctx c1 ys c' sc1 fl scr l1 Hys Hf Hl1 ltac:(lia)) as (b2 & l2 & Hs2 & Hl2).
+      eexists _, _. split; [eapply cshape_app; eassumption | exact Hl2].
+Qed.
+
+Lemma LF_of g : LB g -> LF g.
+Proof.
+  intros IHB body k ctx c code c' sc fl scr l Hlow Hfrag Hl Hbc. unfold lower_fbody in Hlow.
+  destruct (rev body) as [|last init_rev] eqn:Hrev.
+  - apply ret_ok in Hlow as [<- <-]. eexists _, _. split; [apply cshape_nil | exact Hl].
+  - assert (Hbody : body = rev init_rev ++ [last]) by (rewrite <- (rev_involutive body), Hrev; reflexivity).
+    rewrite Hbody in Hfrag. clear Hbody Hrev.
+    mon Hlow. apply lower_list_ok in Hm as (cs & Hmi & ->).
+    assert (Hwhole : statement g last ctx c0 = Ok (a0, c') ->
+              exists b l', cshape u l (concat cs ++ a0) b l' c c' /\ (forall v, v < bound -> alut_get l' v = None)).
+    { intros Hst. pose proof (mapM_snoc _ _ _ _ _ _ _ _ Hmi Hst) as Hmall.
+      destruct (IHB _ k ctx c _ c' sc fl scr l Hmall Hfrag Hl Hbc) as (b & l' & Hs & Hl').
+      rewrite concat_app in Hs. cbn [concat] in Hs. rewrite app_nil_r in Hs. eauto. }
+    destruct last; try (apply Hwhole; assumption). clear Hwhole.
+    destruct (frag_body_app pv sv bound _ _ _ _ _ _ Hfrag) as (sc1 & fl1 & k' & Hfi & Hfl).
+    destruct k' as [|k']; [discriminate|]. rewrite (frag_body_plain pv sv bound k' fl1 sc1 (SStatementExpression value sp) [] eq_refl) in Hfl.
+    destruct (frag_stmt pv sv bound fl1 k' sc1 (SStatementExpression value sp)) as [sc2|] eqn:Hflast; [|discriminate Hfl].
+    destruct k' as [|k'']; [discriminate|]. rewrite frag_stmt_sexpr in Hflast.
+    destruct (frag_expr pv sv bound fl1 k'' sc1 value) eqn:Hfe; [|discriminate Hflast].
+    mon Hm0. destruct a as [cv rv]. cbn [fst snd] in *.
+    destruct (IHB _ k ctx c cs c0 sc fl (sc1, fl1) l Hmi Hfi Hl Hbc) as (b1 & l1 & Hs1 & Hl1).
+    destruct (L_expr_all pv sv bound u fl1 g k'' value ctx c0 cv rv c' sc1 l1 Hm Hfe) as (b2 & l2 & Hs2 & _).
+    pose proof Hs1 as (_ & Hcc0 & _). pose proof Hs2 as (_ & Hc0c' & Hfr2 & _).
+    eexists _, _. split.
+    + eapply cshape_app; [exact Hs1|]. eapply cshape_app; [exact Hs2|].
+      apply (cshape_plain u l2 (IReturn rv) c' c'); [lia | reflexivity | reflexivity | reflexivity].
+    + intros v Hv. rewrite Hfr2 by lia. apply Hl1. exact Hv.
+Qed.
+
+Theorem L_body_all g : LB g /\ LF g.
+Proof.
+  induction g as [g IH] using lt_wf_ind.
+  assert (HB : LB g) by (apply LB_of; intros g' Hg'; apply (IH g' Hg')).
+  split; [exact HB | apply LF_of; exact HB].
+Qed.
+End BodyShape.
+
+Section Body.
+Variable pv : N.
+Variable sv : N.
+Variable bound : N.
+Variable u : counts.
+Variable fl : list (N * nat).
+Variable W : world.
+
+Notation rel := (rel pv sv bound u fl W).
+Notation ctx_ok := (ctx_ok bound).
+
+Lemma wsub_world_add d : wsub W (world_add W d).
+Proof. unfold wsub, world_add. cbn. repeat split; auto. Qed.
+
+Lemma P_body_zero : P_body pv sv bound u fl W O.
+Proof.
+  intros g k ss ctx c cs c' cend e st r st' sc sc' flr l E stL F Hev. cbn in Hev. inversion Hev; subst. intros. contradiction.
+Qed.
+
+(* the exits of a plain statement, seen as exits of the body *)
+Lemma body_exit_of {A} ctx sc sc' flr e l' c c' c'' cend E stL b (r : SyltSem.res A) (r' : SyltSem.res senv) st' :
+  exit_post pv sv bound u fl W ctx sc e c c' E stL b r st' ->
+  match r, r' with
+  | SyltSem.RStop o, SyltSem.RStop o' => o = o'
+  | SyltSem.RAbrupt a, SyltSem.RAbrupt a' => a = a'
+  | _, _ => False
+  end ->
+  body_post pv sv bound u fl W sc sc' flr e l' c'' cend E stL b r' st'.
+Proof.
+  intros Hp Hrr. destruct r as [x|o|a]; destruct r' as [x'|o'|a']; try contradiction; subst.
+  - cbn [body_post fb_post]. destruct Hp as (rl & Hx & (ev & stL' & -> & Htr)). exists ev, stL'. split; assumption.
+  - cbn [body_post]. destruct a' as [| |v]; [exact I | exact I |]. eapply fb_of_exit. exact Hp.
+Qed.
+
+Lemma P_body_succ n :
+  (forall fl' W', P_exec pv sv bound u fl' W' n) -> (forall fl' W', P_body pv sv bound u fl' W' n) ->
+  P_body pv sv bound u fl W (S n).
+Proof.
+  intros HE HB g k ss ctx c cs c' cend e st r st' sc sc' flr l E stL F Hev Hm Hfrag Hu Hce Hctx Hrel Hint.
+  destruct ss as [|s ss].
+  - destruct (mapM_nil_ok _ _ _ _ Hm) as [-> ->]. destruct k as [|k]; [discriminate|]. cbn in Hfrag. inversion Hfrag; subst sc' flr.
+    cbn in Hev. inversion Hev; subst r st'.
+    eexists _, _. split; [apply cshape_nil|]. cbn [body_post]. exists W, E, stL, F.
+    splits; [apply XS_nil | exact Hrel | apply wsub_refl | exact Hctx | intros v _; reflexivity | apply incl_refl | apply keep_refl | lia].
+  - destruct k as [|k]; [discriminate|].
+    apply mapM_cons_ok in Hm as (y & c1 & ys & Hy & Hys & ->). cbn [concat] in *.
+    apply ucovers_app in Hu as [Huy Huys].
+    pose proof Hctx as [Hbc Hlut HFo HEf].
+    assert (Hlb : forall v, v < bound -> alut_get l v = None) by (intros v Hv; apply Hlut; right; exact Hv).
+    cbn [SyltSem.exec_block] in Hev. unfold SyltSem.bind at 1 in Hev.
+    destruct (is_fundef s) eqn:Hfd.
+    + (* a local function *)
+      destruct s; try discriminate Hfd. destruct value; try discriminate Hfd. rewrite frag_body_fun in Hfrag.
+      match type of Hfrag with (if ?b then _ else _) = _ => destruct b eqn:Hc; [|discriminate Hfrag] end.
+      apply andb_prop in Hc as [Hc Hfb]. apply andb_prop in Hc as [Hfr Hpok].
+      set (ps := param_ids params) in *. set (fl' := (var, length ps) :: fl) in *.
+      destruct (frag_body pv sv bound k fl' (rev ps ++ sc) body) as [scout|] eqn:Hfbody; [|discriminate Hfb].
+      destruct g as [|[|g2]]; [cbn in Hy; discriminate Hy | cbn in Hy; discriminate Hy |].
+      cbn [statement] in Hy. rewrite definition_fun in Hy. fold ps in Hy. mon Hy. fresh_all. rename a0 into bc.
+      destruct n as [|[|n2]]; [cbn in Hev; inversion Hev; subst; destruct Hint | cbn in Hev; inversion Hev; subst; destruct Hint |].
+      rewrite exec_def_fun in Hev. fold ps in Hev.
+      apply ucovers_cons in Huy as [_ Huy]. apply ucovers_app in Huy as [Hubc _].
+      destruct (proj2 (L_body_all pv sv bound u g2) body k ctx (c + 1) bc c1 _ fl' scout l Hm0 Hfbody Hlb ltac:(lia)) as (bb & l1 & Hsb & Hl1).
+      pose proof Hsb as (Hemb & Hcc1 & Hfr1 & Hnlb).
+      destruct (fresh_id_inv _ _ _ _ _ _ Hfr) as (Hnin & Hnpv & Hnsv & Hvb).
+      pose proof (fresh_id_fl _ _ _ _ _ _ Hfr) as Hnfl.
+      destruct (proj1 (L_body_all pv sv bound u (S (S g2))) ss k ctx c1 ys c' sc fl' (sc', flr) l1 Hys Hfrag Hl1 ltac:(lia)) as (_ & _ & (_ & Hc1c' & _) & _).
+      assert (Hlut1 : lut_ok bound l (c + 1) c1) by (eapply lut_ok_sub; [exact Hlut | lia | lia]).
+      assert (HEf1 : E_free E (c + 1) c1) by (eapply E_free_sub; [exact HEf | lia | lia]).
+      pose proof (wi_allvis _ _ _ _ _ _ _ _ _ _ _ (r_world _ _ _ _ _ _ _ _ _ _ _ Hrel)) as Hall.
+      destruct (rel_define_function pv sv bound u fl W sc e st E stL var ps body g2 k scout bc ctx (c + 1) c1 l
+                  Hrel Hall Hfr Hpok Hfbody Hm0 Hubc ltac:(lia) Hlut1 HEf1) as (Hrel1 & _).
+      set (E1 := sset (fmt_var var) (s_ncell stL) E) in *.
+      set (d := mkFdyn var ps body sc fl' g2 k scout bc ctx (c + 1) c1 l (length (SyltSem.cells st)) (length (SyltSem.clos st))
+                       (def_env var e st) (s_ncell stL) (s_nclo stL) E1) in *.
+      change (SimDefs.rel pv sv bound u fl' (world_add W d) sc (def_env var e st) (def_state var ps body e st) E1 (lua_def_state stL E1 ps (fbody u d))) in Hrel1.
+      assert (Hbb : bb = fbody u d) by (unfold fbody; cbn [d fd_lut fd_code]; apply (Emits_block_fun u l bc bb l1 Hemb)).
+      rewrite <- Hbb in Hrel1.
+      assert (Hx1 : Exec E (SLocalFun (fmt_var var) (map fmt_var ps) bb) stL (ROk (E1, SigNormal) (lua_def_state stL E1 ps bb)))
+        by apply Exec_localfun.
+      assert (Hctx1 : ctx_ok l1 F E1 c1 cend).
+      { constructor; [lia | | eapply F_out_sub; [exact HFo | lia | lia] |].
+        - intros t0 Ht0. rewrite Hfr1 by lia. apply Hlut. lia.
+        - intros t0 Ht0. unfold E1. rewrite sget_sset_var by lia. apply HEf. lia. }
+      destruct (HB fl' (world_add W d) (S (S g2)) k ss ctx c1 ys c' cend (def_env var e st) (def_state var ps body e st) r st' sc sc' flr l1 E1
+                   (lua_def_state stL E1 ps bb) F Hev Hys Hfrag Huys Hce Hctx1 Hrel1 Hint) as (b2 & l2 & Hs2 & Hpost).
+      eexists _, _. split; [eapply cshape_app; [apply cshape_fun; [exact Hsb | apply Hlb; exact Hvb] | exact Hs2]|].
+      assert (Hse1 : sext pv fl sc e (def_env var e st)).
+      { intros w Hw. unfold def_env. cbn [SyltSem.lookup]. destruct (N.eqb_spec var w) as [->|]; [|reflexivity].
+        destruct Hw as [Hw|[Hw|Hw]]; [contradiction | congruence | contradiction]. }
+      assert (Hk1 : keep sc E E1) by (intros w Hw; unfold E1; apply sget_sset_var; intros ->; contradiction).
+      assert (Hn1 : (s_ncell stL <= s_ncell (lua_def_state stL E1 ps bb))%positive)
+        by (unfold lua_def_state, set_cell, alloc_closure, alloc_cell; cbn [snd s_ncell]; lia).
+      assert (Hsext' : forall e2, sext pv fl' sc (def_env var e st) e2 -> sext pv fl sc e e2).
+      { intros e2 H2 w Hw. rewrite H2; [apply Hse1; exact Hw|]. destruct Hw as [Hw|[Hw|Hw]]; [left; exact Hw | right; left; exact Hw | right; right; right; exact Hw]. }
+      destruct r as [e2|o|a].
+      * cbn [body_post] in *. destruct Hpost as (W2 & E2 & stL2 & F2 & Hx2 & Hr2 & Hw2 & Hc2 & Hs2' & Hi2 & Hk2 & Hn2).
+        exists W2, E2, stL2, F2. splits; [cbn [app]; eapply XS_cons; [exact Hx1 | exact Hx2] | exact Hr2 | eapply wsub_trans; [apply wsub_world_add | exact Hw2] | exact Hc2
+                                          | apply Hsext'; exact Hs2' | exact Hi2 | eapply keep_trans; eassumption | lia].
+      * cbn [body_post fb_post] in *. destruct Hpost as (ev & stL2 & Hx2 & Htr). exists ev, stL2. split; [cbn [app]; eapply XS_cons; [exact Hx1 | exact Hx2] | exact Htr].
+      * cbn [body_post fb_post] in *. destruct a as [| |v]; [exact I | exact I |].
+        destruct Hpost as (fl2 & W2 & sc2 & e2 & E2 & Er & stL2 & lv & Hx2 & Hv2 & Hr2 & Hw2 & Hs2' & Hi2 & Hk2 & Hn2).
+        exists fl2, W2, sc2, e2, E2, Er, stL2, lv.
+        splits; [cbn [app]; eapply XS_cons; [exact Hx1 | exact Hx2] | exact Hv2 | exact Hr2 | eapply wsub_trans; [apply wsub_world_add | exact Hw2]
+                 | apply Hsext'; exact Hs2' | exact Hi2 | eapply keep_trans; eassumption | lia].
+    + (* a statement *)
+      rewrite (frag_body_plain _ _ _ _ _ _ _ _ Hfd) in Hfrag.
+      destruct (frag_stmt pv sv bound fl k sc s) as [sc1|] eqn:Hs; [|discriminate Hfrag].
+      destruct (L_stmt_all pv sv bound u fl g k s ctx c y c1 sc sc1 l Hy Hs) as (_ & _ & (_ & Hcc1 & _)).
+      assert (HLr : forall l0, (forall v, v < bound -> alut_get l0 v = None) -> exists b2 l2, cshape u l0 (concat ys) b2 l2 c1 c')
+        by (intros l0 Hl0; destruct (proj1 (L_body_all pv sv bound u g) ss k ctx c1 ys c' sc1 fl (sc', flr) l0 Hys Hfrag Hl0 ltac:(lia)) as (b2 & l2 & H2 & _); eauto).
+      destruct (HLr l Hlb) as (_ & _ & (_ & Hc1c' & _)).
+      assert (Hctxs : ctx_ok l F E c c1) by (eapply ctx_sub; [exact Hctx | lia | lia]).
+      destruct (SyltSem.exec n e s st) as [[e1|o|a] st1] eqn:He1.
+      2,3: (inversion Hev; subst;
+            destruct (HE fl W g k s ctx c y c1 e st _ st' sc sc1 l E stL F He1 Hy Hs Huy Hctxs Hrel Hint) as (b1 & l1 & Hs1 & Hp1);
+            pose proof Hs1 as (_ & _ & Hfr1 & _);
+            destruct (HLr l1) as (b2 & l2 & Hs2); [intros v Hv; rewrite Hfr1 by lia; apply Hlb; exact Hv|];
+            eexists _, _; (split; [eapply cshape_app; eassumption|]); cbn [stmt_post] in Hp1;
+            eapply (body_exit_of ctx sc sc' flr e _ c c'); [eapply exit_app; [exact Hp1 | exact Hc1c'] | reflexivity]).
+      destruct (HE fl W g k s ctx c y c1 e st _ st1 sc sc1 l E stL F He1 Hy Hs Huy Hctxs Hrel I)
+        as (b1 & l1 & Hs1 & E1 & stL1 & F1 & Hok1 & Hse1 & Hinc1).
+      pose proof Hok1 as (Hx1 & Hf1 & Hrel1 & _ & Hk1).
+      assert (Hctx1 : ctx_ok l1 F1 E1 c1 cend) by (eapply (ctx_afterS pv sv bound u fl W); eassumption).
+      destruct (HB fl W g k ss ctx c1 ys c' cend e1 st1 r st' sc1 sc' flr l1 E1 stL1 F1 Hev Hys Hfrag Huys Hce Hctx1 Hrel1 Hint)
+        as (b2 & l2 & Hs2 & Hpost).
+      eexists _, _. split; [eapply cshape_app; eassumption|].
+      pose proof (wr_ncell _ _ _ _ _ _ _ Hf1) as Hn1.
+      assert (Hkk : forall E2, keep sc1 E1 E2 -> keep sc E E2) by (intros E2 H2 w Hw; rewrite (H2 w (Hinc1 w Hw)); apply Hk1; exact Hw).
+      destruct r as [e2|o|a].
+      * cbn [body_post] in *. destruct Hpost as (W2 & E2 & stL2 & F2 & Hx2 & Hr2 & Hw2 & Hc2 & Hs2' & Hi2 & Hk2 & Hn2).
+        exists W2, E2, stL2, F2. splits; [eapply ExecS_app; eassumption | exact Hr2 | exact Hw2 | exact Hc2
+                                          | eapply sext_trans; eassumption | eapply incl_tran; eassumption | apply Hkk; exact Hk2 | lia].
+      * cbn [body_post fb_post] in *. destruct Hpost as (ev & stL2 & Hx2 & Htr). exists ev, stL2. split; [eapply ExecS_app; eassumption | exact Htr].
+      * cbn [body_post fb_post] in *. destruct a as [| |v]; [exact I | exact I |].
+        destruct Hpost as (fl2 & W2 & sc2 & e2 & E2 & Er & stL2 & lv & Hx2 & Hv2 & Hr2 & Hw2 & Hs2' & Hi2 & Hk2 & Hn2).
+        exists fl2, W2, sc2, e2, E2, Er, stL2, lv.
+        splits; [eapply ExecS_app; eassumption | exact Hv2 | exact Hr2 | exact Hw2 | eapply sext_trans; eassumption
+                 | eapply incl_tran; eassumption | apply Hkk; exact Hk2 | lia].
+Qed.
+
+(* the body block after a prefix that ended normally *)
+Lemma fb_pre fl1 W1 sc sc1 e e1 E E1 stL stL1 b1 b2 r st' :
+  ExecS E b1 stL (ROk (E1, SigNormal) stL1) -> wsub W W1 -> sext pv fl sc e e1 -> incl sc sc1 -> keep sc E E1 ->
+  (s_ncell stL <= s_ncell stL1)%positive -> incl (fnames fl) (fnames fl1) ->
+  fb_post pv sv bound u fl1 W1 sc1 e1 E1 stL1 b2 r st' -> fb_post pv sv bound u fl W sc e E stL (b1 ++ b2) r st'.
+Proof.
+  intros Hx1 Hw1 Hs1 Hi1 Hk1 Hn1 Hfl Hp.
+  assert (Hsx : forall e2, sext pv fl1 sc1 e1 e2 -> sext pv fl sc e e2).
+  { intros e2 H2 w Hw. rewrite H2; [apply Hs1; exact Hw|]. destruct Hw as [Hw|[Hw|Hw]]; [left; apply Hi1; exact Hw | right; left; exact Hw | right; right; apply Hfl; exact Hw]. }
+  destruct r as [v|o|[| |v]]; cbn [fb_post] in *; try exact I.
+  - destruct Hp as (fl2 & W2 & E2 & sg & stL2 & sc2 & e2 & Hx2 & Hsg & Hr2 & Hw2 & Hs2 & Hi2 & Hk2 & Hn2).
+    exists fl2, W2, E2, sg, stL2, sc2, e2.
+    splits; [eapply ExecS_app; eassumption | exact Hsg | exact Hr2 | eapply wsub_trans; eassumption | eapply Hsx; eassumption
+             | eapply incl_tran; eassumption | intros w Hw; rewrite (Hk2 w (Hi1 w Hw)); apply Hk1; exact Hw | lia].
+  - destruct Hp as (ev & stL2 & Hx2 & Htr). exists ev, stL2. split; [eapply ExecS_app; eassumption | exact Htr].
+  - destruct Hp as (fl2 & W2 & sc2 & e2 & E2 & Er & stL2 & lv & Hx2 & Hv2 & Hr2 & Hw2 & Hs2 & Hi2 & Hk2 & Hn2).
+    exists fl2, W2, sc2, e2, E2, Er, stL2, lv.
+    splits; [eapply ExecS_app; eassumption | exact Hv2 | exact Hr2 | eapply wsub_trans; eassumption | eapply Hsx; eassumption
+             | eapply incl_tran; eassumption | intros w Hw; rewrite (Hk2 w (Hi1 w Hw)); apply Hk1; exact Hw | lia].
+Qed.
+
+(* the body block stopped by a prefix *)
+Lemma fb_app_stop {A} sc e E stL b1 b2 (x : A) r st' :
+  match r with SyltSem.RVal _ => False | _ => True end ->
+  fb_post pv sv bound u fl W sc e E stL b1 r st' -> fb_post pv sv bound u fl W sc e E stL (b1 ++ b2) r st'.
+Proof.
+  intros Hr Hp. destruct r as [v|o|[| |v]]; cbn [fb_post] in *; try exact I; try contradiction.
+  - destruct Hp as (ev & stL2 & Hx2 & Htr). exists ev, stL2. split; [apply ExecS_app_stop; [exact Hx2 | intros []] | exact Htr].
+  - destruct Hp as (fl2 & W2 & sc2 & e2 & E2 & Er & stL2 & lv & Hx2 & Hrest).
+    exists fl2, W2, sc2, e2, E2, Er, stL2, lv. split; [apply ExecS_app_stop; [exact Hx2 | intros []] | exact Hrest].
+Qed.
+
+Lemma P_fb_zero : P_fb pv sv bound u fl W O.
+Proof.
+  intros g k body ctx c code c' e st r st' sc scout l E stL F Hev. cbn in Hev. inversion Hev; subst. intros. contradiction.
+Qed.
+
+Lemma P_fb_succ n :
+  (forall fl' W', P_eval pv sv bound u fl' W' n) -> (forall fl' W', P_body pv sv bound u fl' W' n) ->
+  P_fb pv sv bound u fl W (S n).
+Proof.
+  intros IHe IHb g k body ctx c code c' e st r st' sc [sc' flr] l E stL F Hev Hlow Hfrag Hu Hctx Hrel Hint.
+  pose proof Hctx as [Hbc Hlut HFo HEf].
+  assert (Hlb : forall v, v < bound -> alut_get l v = None) by (intros v Hv; apply Hlut; right; exact Hv).
+  destruct (proj2 (L_body_all pv sv bound u g) body k ctx c code c' sc fl (sc', flr) l Hlow Hfrag Hlb Hbc) as (b0 & l0 & Hs0 & _).
+  pose proof Hs0 as (_ & Hcc' & _).
+  (* an abrupt end is outside what the post-condition says *)
+  assert (Hab : r = SyltSem.RAbrupt SyltSem.CBreak \/ r = SyltSem.RAbrupt SyltSem.CContinue ->
+                exists b l', cshape u l code b l' c c' /\ fb_post pv sv bound u fl W sc e E stL b r st').
+  { intros [-> | ->]; exists b0, l0; (split; [exact Hs0 | exact I]). }
+  clear Hs0.
+  cbn [SyltSem.block_value] in Hev. unfold lower_fbody in Hlow.
+  destruct (rev body) as [|last init_rev] eqn:Hrev.
+  - (* empty body *)
+    assert (body = []) by (rewrite <- (rev_involutive body), Hrev; reflexivity). subst body.
+    apply ret_ok in Hlow as [<- <-].
+    unfold SyltSem.bind in Hev. destruct n as [|n]; [cbn in Hev; inversion Hev; subst; destruct Hint|].
+    cbn in Hev. inversion Hev; subst r st'.
+    destruct k as [|k]; [discriminate|]. cbn in Hfrag. inversion Hfrag; subst sc' flr.
+    eexists _, _. split; [apply cshape_nil|]. cbn [fb_post].
+    exists fl, W, E, SigNormal, stL, sc, e.
+    splits; [apply XS_nil | left; split; reflexivity | exact Hrel | apply wsub_refl | apply sext_refl | apply incl_refl | apply keep_refl | lia].
+  - assert (Hbody : body = rev init_rev ++ [last]) by (rewrite <- (rev_involutive body), Hrev; reflexivity).
+    mon Hlow. apply lower_list_ok in Hm as (cs & Hmi & ->).
+    pose proof Hfrag as Hfrag0.
+    destruct (frag_body_app pv sv bound _ _ _ _ _ _ Hfrag0) as (sc1 & fl1 & k' & Hfi & Hfl).
+    apply ucovers_app in Hu as [Hui Hul].
+    (* the last statement is not an expression: the value is nil *)
+    assert (Hgen : SyltSem.bind (SyltSem.exec_block n e (rev init_rev ++ [last])) (fun _ : senv => SyltSem.ret (SV Values.VLuaNil)) st = (r, st') ->
+                   statement g last ctx c0 = Ok (a0, c') ->
+                   exists (b : block) (l' : alut), cshape u l (concat cs ++ a0) b l' c c' /\ fb_post pv sv bound u fl W sc e E stL b r st').
+    { intros Hev' Hst.
+      pose proof (mapM_snoc _ _ _ _ _ _ _ _ Hmi Hst) as Hmall.
+      assert (Hcc : concat (cs ++ [a0]) = concat cs ++ a0) by (rewrite concat_app; cbn [concat]; rewrite app_nil_r; reflexivity).
+      assert (Huall : ucovers u (concat (cs ++ [a0]))) by (rewrite Hcc; apply ucovers_app; split; assumption).
+      unfold SyltSem.bind at 1 in Hev'.
+      destruct (SyltSem.exec_block n e (rev init_rev ++ [last]) st) as [[e1|o|cc] st1] eqn:He1.
+      3: { inversion Hev'; subst. destruct cc as [| |v]; [apply Hab; auto | apply Hab; auto |].
+           destruct (IHb fl W g k _ ctx c _ c' c' e st _ st' sc sc' flr l E stL F He1 Hmall Hfrag0 Huall (N.le_refl _) Hctx Hrel Hint)
+             as (b1 & l1 & Hs1 & Hpost). rewrite Hcc in Hs1.
+           eexists _, _. split; [exact Hs1|]. cbn [body_post] in Hpost. exact Hpost. }
+      2: { inversion Hev'; subst.
+           destruct (IHb fl W g k _ ctx c _ c' c' e st _ st' sc sc' flr l E stL F He1 Hmall Hfrag0 Huall (N.le_refl _) Hctx Hrel Hint)
+             as (b1 & l1 & Hs1 & Hpost). rewrite Hcc in Hs1.
+           eexists _, _. split; [exact Hs1|]. cbn [body_post] in Hpost. exact Hpost. }
+      cbn in Hev'. inversion Hev'; subst r st'. clear Hev'.
+      destruct (IHb fl W g k _ ctx c _ c' c' e st _ st1 sc sc' flr l E stL F He1 Hmall Hfrag0 Huall (N.le_refl _) Hctx Hrel I)
+        as (b1 & l1 & Hs1 & W1 & E1 & stL1 & F1 & Hx1 & Hrel1 & Hw1 & _ & Hse1 & Hinc1 & Hk1 & Hn1). rewrite Hcc in Hs1.
+      eexists _, _. split; [exact Hs1|].
+      exists flr, W1, E1, SigNormal, stL1, sc', e1.
+      splits; [exact Hx1 | left; split; reflexivity | exact Hrel1 | exact Hw1 | exact Hse1 | exact Hinc1 | exact Hk1 | exact Hn1]. }
+    destruct last; try (apply Hgen; assumption).
+    (* the last statement is an expression: its value is returned *)
+    clear Hgen.
+    destruct k' as [|k']; [discriminate|]. rewrite (frag_body_plain pv sv bound) in Hfl by reflexivity.
+    match type of Hfl with match ?x with _ => _ end = _ => destruct x as [sc2|] eqn:Hflast; [|discriminate Hfl] end.
+    destruct k' as [|k'']; [discriminate|]. rewrite frag_stmt_sexpr in Hflast.
+    destruct (frag_expr pv sv bound fl1 k'' sc1 value) eqn:Hfe; [|discriminate Hflast].
+    mon Hm0. destruct a as [code_v rv]. cbn [fst snd] in *.
+    apply ucovers_app in Hul as [Huv Hur].
+    assert (Hcrv : 1 <= count_of u rv) by (eapply Hur; [left; reflexivity | left; reflexivity]).
+    assert (Hrest : forall l0, exists b2 l2, cshape u l0 code_v b2 l2 c0 c' /\ c0 <= rv /\ rv < c')
+      by (intros lx; apply (L_expr_all pv sv bound u fl1 g k'' value ctx c0 code_v rv c' sc1 lx Hm Hfe)).
+    destruct (Hrest l) as (_ & _ & (_ & Hc0' & _) & _).
+    assert (Hret : forall l0, cshape u l0 [IReturn rv] (fst (agen_one u l0 (IReturn rv))) l0 c' c')
+      by (intros lx; apply cshape_plain; [lia | reflexivity | reflexivity | reflexivity]).
+    pose proof (frag_body_fnames pv sv bound _ _ _ _ _ _ Hfi) as Hfn.
+    unfold SyltSem.bind at 1 in Hev.
+    destruct (SyltSem.exec_block n e (rev init_rev) st) as [[e1|o|cc] st1] eqn:He1.
+    3: { inversion Hev; subst. destruct cc as [| |v]; [apply Hab; auto | apply Hab; auto |].
+         destruct (IHb fl W g k _ ctx c _ c0 c' e st _ st' sc sc1 fl1 l E stL F He1 Hmi Hfi Hui Hc0' Hctx Hrel Hint)
+           as (b1 & l1 & Hs1 & Hp1). destruct (Hrest l1) as (b2 & l2 & Hs2 & _).
+         eexists _, _. split; [eapply cshape_app; [exact Hs1|]; eapply cshape_app; [exact Hs2 | apply Hret]|].
+         cbn [body_post] in Hp1. apply (fb_app_stop sc e E stL b1 _ tt); [exact I | exact Hp1]. }
+    2: { inversion Hev; subst.
+         destruct (IHb fl W g k _ ctx c _ c0 c' e st _ st' sc sc1 fl1 l E stL F He1 Hmi Hfi Hui Hc0' Hctx Hrel Hint)
+           as (b1 & l1 & Hs1 & Hp1). destruct (Hrest l1) as (b2 & l2 & Hs2 & _).
+         eexists _, _. split; [eapply cshape_app; [exact Hs1|]; eapply cshape_app; [exact Hs2 | apply Hret]|].
+         cbn [body_post] in Hp1. apply (fb_app_stop sc e E stL b1 _ tt); [exact I | exact Hp1]. }
+    destruct (IHb fl W g k _ ctx c _ c0 c' e st _ st1 sc sc1 fl1 l E stL F He1 Hmi Hfi Hui Hc0' Hctx Hrel I)
+      as (b1 & l1 & Hs1 & W1 & E1 & stL1 & F1 & Hx1 & Hrel1 & Hw1 & Hctx1 & Hse1 & Hinc1 & Hk1 & Hn1).
+    destruct (SyltSem.eval n e1 value st1) as [[v_|o|cc] st2] eqn:He2.
+    3: { inversion Hev; subst. destruct cc as [| |v]; [apply Hab; auto | apply Hab; auto |].
+         destruct (IHe fl1 W1 g k'' value ctx c0 code_v rv c' e1 st1 _ st' sc1 l1 E1 stL1 F1 He2 Hm Hfe Huv Hctx1 Hrel1 Hint)
+           as (b2 & l2 & Hs2 & _ & _ & Hp2). cbn [eval_post] in Hp2.
+         eexists _, _. split; [eapply cshape_app; [exact Hs1|]; eapply cshape_app; [exact Hs2 | apply Hret]|].
+         eapply (fb_pre fl1 W1 sc sc1 e e1 E E1 stL stL1); try eassumption.
+         eapply fb_of_exit. eapply exit_app; [exact Hp2 | apply N.le_refl]. }
+    2: { inversion Hev; subst.
+         destruct (IHe fl1 W1 g k'' value ctx c0 code_v rv c' e1 st1 _ st' sc1 l1 E1 stL1 F1 He2 Hm Hfe Huv Hctx1 Hrel1 Hint)
+           as (b2 & l2 & Hs2 & _ & _ & Hp2). cbn [eval_post] in Hp2. destruct Hp2 as (rl & Hx2 & (ev & stL2 & -> & Htr)).
+         eexists _, _. split; [eapply cshape_app; [exact Hs1|]; eapply cshape_app; [exact Hs2 | apply Hret]|].
+         exists ev, stL2. split; [|exact Htr].
+         eapply ExecS_app; [exact Hx1|]. apply ExecS_app_stop; [exact Hx2 | intros []]. }
+    inversion Hev; subst r st'. clear Hev.
+    destruct (IHe fl1 W1 g k'' value ctx c0 code_v rv c' e1 st1 _ st2 sc1 l1 E1 stL1 F1 He2 Hm Hfe Huv Hctx1 Hrel1 I)
+      as (b2 & l2 & Hs2 & _ & _ & E2 & stL2 & F2 & Hok2 & Hd2). specialize (Hd2 Hcrv).
+    pose proof Hok2 as (Hx2 & Hf2 & Hrel2 & _ & Hk2).
+    eexists _, _. split; [eapply cshape_app; [exact Hs1|]; eapply cshape_app; [exact Hs2 | apply Hret]|].
+    destruct (denotes_now _ _ _ _ _ Hd2 (r_wf _ _ _ _ _ _ _ _ _ _ _ Hrel2) (r_linv _ _ _ _ _ _ _ _ _ _ _ Hrel2)) as (lv & Hv & st3 & _ & Hm3 & Hx3).
+    exists fl1, W1, E2, (SigReturn [lv]), st3, sc1, e1. splits.
+    + eapply ExecS_app; [exact Hx1|]. eapply ExecS_app; [exact Hx2|].
+      cbn [agen_one fst]. apply XS_stop; [|intros []].
+      eapply Exec_do. apply ExecBlock_of_ExecS; [|repeat constructor | intros []].
+      apply XS_stop; [|intros []]. apply Exec_return. apply EvalList_one. exact Hm3.
+    + right. exists lv. split; [reflexivity | exact Hv].
+    + eapply rel_cells_ext; eassumption.
+    + exact Hw1.
+    + exact Hse1.
+    + exact Hinc1.
+    + intros w Hw. rewrite (Hk2 w (Hinc1 w Hw)). apply Hk1. exact Hw.
+    + pose proof (wr_ncell _ _ _ _ _ _ _ Hf2).
+      destruct Hx3 as (_ & _ & _ & _ & _ & _ & Hn3 & _). lia.
+Qed.
+
+End Body.
+
 Section Call.
 Variable pv : N.
 Variable sv : N.
@@ -183,7 +830,17 @@ Definition callee_world (d : fdyn) (sc : list N) (e : senv) (st : sstate) (E : e
     (fun p lv => w_IL W p lv \/
                  (exists v, In v sc /\ ~ In v (fd_sc d) /\ sget (fmt_var v) E = Some p /\ get_cell stL p = lv) \/
                  (exists t, bound <= t /\ sget (fmt_var t) E = Some p /\ get_cell stL p = lv))
-    (w_funs W).
+    (fun ci cl => nth_error (SyltSem.clos st) ci = Some cl)
+    (fun fid c => pget fid (s_clos stL) = Some c /\ (fid < s_nclo stL)%positive)
+    (filter (fun d' => memN (fd_var d') (fnames (fd_fl d))) (w_funs W)).
+
+Lemma callee_funs d sc e st E stL d' :
+  In d' (w_funs (callee_world d sc e st E stL)) <-> In d' (w_funs W) /\ In (fd_var d') (fnames (fd_fl d)).
+Proof.
+  cbn [callee_world w_funs]. rewrite filter_In. split; intros [A B]; (split; [exact A|]).
+  - unfold memN in B. apply existsb_exists in B as (y & Hy & Heq). apply N.eqb_eq in Heq. subst. exact Hy.
+  - unfold memN. apply existsb_exists. exists (fd_var d'). split; [exact B | apply N.eqb_refl].
+Qed.
 
 (* the relation at the closure environment of a callable function, in the world of its call *)
 Lemma callee_rel d sc e st E stL :
@@ -213,17 +870,21 @@ Proof.
   - constructor; [apply (fs_EV _ _ _ _ _ Hst) | apply (fs_Einj _ _ _ _ _ Hst) | exact Halloc].
   - exact Ht.
   - exact Hli.
-  - constructor; cbn [callee_world w_IS w_IL w_funs].
+  - constructor; cbn [callee_world w_IS w_IL w_CS w_CL].
     + intros c x [Hc|(v & _ & _ & _ & Hn)]; [apply (wi_IS _ _ _ _ _ _ _ _ _ _ _ HW); exact Hc | exact Hn].
     + intros p lv [Hq|[(v & _ & _ & Hq & Hc)|(t & _ & Hq & Hc)]].
       * apply (wi_IL _ _ _ _ _ _ _ _ _ _ _ HW); exact Hq.
       * split; [exact Hc | eapply wf_alloc; eassumption].
       * split; [exact Hc | eapply wf_alloc; eassumption].
-    + apply (wi_clos _ _ _ _ _ _ _ _ _ _ _ HW).
-    + intros d' Hd'. destruct (wi_fun _ _ _ _ _ _ _ _ _ _ _ HW d' Hd') as (A & B & C). splits; [exact A | left; exact B | left; exact C].
-    + apply (wi_inter _ _ _ _ _ _ _ _ _ _ _ HW).
-    + intros f ar Hf. apply (wi_cover _ _ _ _ _ _ _ _ _ _ _ HW). apply Hifl. exact Hf.
-    + apply (wi_uniq _ _ _ _ _ _ _ _ _ _ _ HW).
+    + intros ci cl H. exact H.
+    + intros fid c H. exact H.
+    + intros d' Hd'. apply callee_funs in Hd' as [_ H]. exact H.
+    + intros d' Hd'. apply callee_funs in Hd' as [Hd' _]. apply (wi_clos _ _ _ _ _ _ _ _ _ _ _ HW d' Hd').
+    + intros d' Hd'. apply callee_funs in Hd' as [Hd' _]. destruct (wi_fun _ _ _ _ _ _ _ _ _ _ _ HW d' Hd') as (A & B & C). splits; [exact A | left; exact B | left; exact C].
+    + intros d1 d2 Hd1 Hd2. apply callee_funs in Hd1 as [Hd1 _]. apply callee_funs in Hd2 as [Hd2 _]. apply (wi_inter _ _ _ _ _ _ _ _ _ _ _ HW d1 d2 Hd1 Hd2).
+    + intros f ar Hf. destruct (wi_cover _ _ _ _ _ _ _ _ _ _ _ HW f ar (Hifl _ Hf)) as (d' & A & B & C). exists d'. splits; [|exact B | exact C].
+      apply callee_funs. split; [exact A|]. rewrite B. unfold fnames. change f with (fst (f, ar)). apply in_map. exact Hf.
+    + intros d1 d2 Hd1 Hd2. apply callee_funs in Hd1 as [Hd1 _]. apply callee_funs in Hd2 as [Hd2 _]. apply (wi_uniq _ _ _ _ _ _ _ _ _ _ _ HW d1 d2 Hd1 Hd2).
     + intros g c x Hg Hlk [Hc|(v & Hvin & Hnv & Hlkv & _)].
       * rewrite (HlkS g Hg) in Hlk. exact (wi_scS _ _ _ _ _ _ _ _ _ _ _ HW g c x (Hisc g Hg) Hlk Hc).
       * rewrite (HlkS g Hg) in Hlk. assert (v = g) by (eapply Hi; [exact Hvin | apply Hisc; exact Hg | exact Hlkv | exact Hlk]).
@@ -233,30 +894,30 @@ Proof.
       * exact (wi_lprot _ _ _ _ _ _ _ _ _ _ _ HW g p lv (Hisc g Hg) Hq Hc).
       * assert (fmt_var v = fmt_var g) by (eapply wf_inj; eassumption). apply fmt_var_inj in H. subst v. contradiction.
       * assert (fmt_var t = fmt_var g) by (eapply wf_inj; eassumption). apply fmt_var_inj in H. subst t. destruct (Hb g (Hisc g Hg)). lia.
-    + intros d' Hd' Hv'. apply (wi_inter _ _ _ _ _ _ _ _ _ _ _ HW d d' Hd Hd' Hv').
-    + intros d' Hd' Hv'. apply (wi_inter _ _ _ _ _ _ _ _ _ _ _ HW d d' Hd Hd' Hv').
-    + intros d' Hd' Hv'. destruct (wi_inter _ _ _ _ _ _ _ _ _ _ _ HW d d' Hd Hd' Hv') as (_ & _ & A & B). split; assumption.
+    + intros d' Hd' Hv'. apply callee_funs in Hd' as [Hd' _]. apply (wi_inter _ _ _ _ _ _ _ _ _ _ _ HW d d' Hd Hd' Hv').
+    + intros d' Hd' Hv'. apply callee_funs in Hd' as [Hd' _]. apply (wi_inter _ _ _ _ _ _ _ _ _ _ _ HW d d' Hd Hd' Hv').
+    + intros d' Hd' Hv'. apply callee_funs in Hd' as [Hd' _]. destruct (wi_inter _ _ _ _ _ _ _ _ _ _ _ HW d d' Hd Hd' Hv') as (_ & _ & A & B). split; assumption.
 Qed.
 
 (* back in the caller after the call *)
-Lemma caller_back d sc e st E stL sc2 e2 E2 st' stL' :
+Lemma caller_back d sc e st E stL fl2 W2 sc2 e2 E2 st' stL' :
   rel sc e st E stL -> In d (w_funs W) -> In (fd_var d) (fnames fl) ->
-  SimDefs.rel pv sv bound u (fd_fl d) (callee_world d sc e st E stL) sc2 e2 st' E2 stL' ->
+  SimDefs.rel pv sv bound u fl2 W2 sc2 e2 st' E2 stL' -> wsub (callee_world d sc e st E stL) W2 ->
   incl (fd_sc d) sc2 ->
   (forall g, In g (fd_sc d) \/ g = pv -> SyltSem.lookup e2 g = SyltSem.lookup (fd_ef d) g) ->
   (forall g, In g (fd_sc d) -> sget (fmt_var g) E2 = sget (fmt_var g) (fd_Ef d)) ->
   (s_ncell stL <= s_ncell stL')%positive ->
   rel sc e st' E stL' /\ call_frame bound E stL stL'.
 Proof.
-  intros Hrel Hd Hvis Hrel' Hinc HeS HeL Hnc.
+  intros Hrel Hd Hvis Hrel' (HwS & HwL & HwCS & HwCL) Hinc HeS HeL Hnc.
   pose proof Hrel as [Hv Hb Hi Hp Hpb HpE HpG Hwf Ht Hli HW].
   pose proof Hrel' as [Hv' Hb' Hi' Hp' Hpb' HpE' HpG' Hwf' Ht' Hli' HW'].
   destruct (wi_visS _ _ _ _ _ _ _ _ _ _ _ HW d Hd Hvis) as [HnameS HagS].
   destruct (wi_visL _ _ _ _ _ _ _ _ _ _ _ HW d Hd Hvis) as [HnameL HagL].
   assert (HIS' : forall c x, w_IS (callee_world d sc e st E stL) c x -> nth_error (SyltSem.cells st') c = Some x)
-    by apply (wi_IS _ _ _ _ _ _ _ _ _ _ _ HW').
+    by (intros c x H; apply (wi_IS _ _ _ _ _ _ _ _ _ _ _ HW'), HwS; exact H).
   assert (HIL' : forall p lv, w_IL (callee_world d sc e st E stL) p lv -> get_cell stL' p = lv)
-    by (intros p lv H; apply (wi_IL _ _ _ _ _ _ _ _ _ _ _ HW' p lv H)).
+    by (intros p lv H; apply (wi_IL _ _ _ _ _ _ _ _ _ _ _ HW' p lv (HwL p lv H))).
   split.
   - constructor.
     + intros v Hin. destruct (in_dec N.eq_dec v (fd_sc d)) as [Hg|Hng].
@@ -278,10 +939,31 @@ Proof.
     + destruct Hwf as [HV Hinj Hal]. constructor; [exact HV | exact Hinj |]. intros x p Hx. specialize (Hal x p Hx). lia.
     + exact Ht'.
     + exact Hli'.
-    + destruct HW as [H1 H2 H3 H4 H5 H6 H7 H8 H9 H10 H11 H12 H13]. constructor; auto.
+    + assert (HCS' : forall ci cl, nth_error (SyltSem.clos st) ci = Some cl -> nth_error (SyltSem.clos st') ci = Some cl)
+        by (intros ci cl H; apply (wi_CS _ _ _ _ _ _ _ _ _ _ _ HW' ci cl), HwCS; exact H).
+      assert (HCL' : forall fid c0, pget fid (s_clos stL) = Some c0 -> (fid < s_nclo stL)%positive ->
+                                    pget fid (s_clos stL') = Some c0 /\ (fid < s_nclo stL')%positive)
+        by (intros fid c0 H H'; apply (wi_CL _ _ _ _ _ _ _ _ _ _ _ HW' fid c0), HwCL; split; assumption).
+      pose proof HW as HW0.
+      destruct HW as [H1 H2 HCS HCL Hav H3 H4 H5 H6 H7 H8 H9 H10 H11 H12 H13]. constructor.
       * intros c x Hc. apply HIS'. left. exact Hc.
-      * intros p lv Hq. apply (wi_IL _ _ _ _ _ _ _ _ _ _ _ HW' p lv). left. exact Hq.
-      * apply (wi_clos _ _ _ _ _ _ _ _ _ _ _ HW').
+      * intros p lv Hq. apply (wi_IL _ _ _ _ _ _ _ _ _ _ _ HW' p lv), HwL. left. exact Hq.
+      * intros ci cl Hc. apply HCS'. apply HCS. exact Hc.
+      * intros fid c0 Hc. destruct (HCL fid c0 Hc) as [A B]. apply HCL'; assumption.
+      * exact Hav.
+      * intros d0 Hd0. destruct (H3 d0 Hd0) as (A & B & C & D & F).
+        destruct (HCL' _ _ B D) as [B' D']. splits; [apply HCS'; exact A | exact B' | | exact D' | apply nth_error_Some; rewrite (HCS' _ _ A); discriminate].
+        intros x p Hx. specialize (C x p Hx). lia.
+      * exact H4.
+      * exact H5.
+      * exact H6.
+      * exact H7.
+      * exact H8.
+      * exact H9.
+      * exact H10.
+      * exact H11.
+      * exact H12.
+      * exact H13.
   - split; [exact Hnc|]. intros t p Hbt Hq. apply HIL'. right. right. exists t. auto.
 Qed.
 
@@ -329,7 +1011,7 @@ Proof.
   assert (Hctx : ctx_ok bound (fd_lut d) [] E1 (fd_c d) (fd_c' d)).
   { constructor; [apply (fs_bound _ _ _ _ _ Hst) | intros t Ht; apply (fs_lut _ _ _ _ _ Hst); exact Ht | intros t [] |].
     intros t Ht. rewrite Ht1 by (pose proof (fs_bound _ _ _ _ _ Hst); lia). apply (fs_Efree _ _ _ _ _ Hst). exact Ht. }
-  destruct (IHfb (fd_fl d) W' (fd_g d) (fd_k d) (fd_body d) 0 (fd_c d) (fd_code d) (fd_c' d) ec st1 rb st2 _ (fd_scout d) (fd_lut d) E1 stL1 []
+  destruct (IHfb (fd_fl d) W' (fd_g d) (fd_k d) (fd_body d) (fd_ctx d) (fd_c d) (fd_code d) (fd_c' d) ec st1 rb st2 _ (fd_scout d) (fd_lut d) E1 stL1 []
                  Hbv (fs_lower _ _ _ _ _ Hst) (fs_frag _ _ _ _ _ Hst) (fs_ucov _ _ _ _ _ Hst) Hctx Hrel1' Hintb)
     as (b & l' & Hs & Hpost).
   assert (Hb : b = fbody u d) by (unfold fbody; apply (Emits_block_fun u _ _ _ l'); apply Hs).
@@ -339,12 +1021,12 @@ Proof.
   destruct rb as [v|o|[| |v]]; [| |destruct Hnab|destruct Hnab|].
   3: { (* an early return *)
     inversion Hap; subst r st'. clear Hap.
-    destruct Hpost as (E' & stL' & lv & Hx & Hvl & Hrel2 & Hnc2).
+    destruct Hpost as (fl2 & W2 & sc2 & e2 & E2 & E' & stL' & lv & Hx & Hvl & Hrel2 & Hws & Hse & Hinc2 & Hk & Hnc2).
     assert (Hback : SimDefs.rel pv sv bound u fl W sc e st2 E stL' /\ call_frame bound E stL stL').
-    { apply (caller_back d sc e st E stL _ ec E1 st2 stL' Hrel Hd Hvis Hrel2).
-      - intros g Hg. apply in_or_app. right. exact Hg.
-      - exact Hlkf.
-      - intros g Hg. apply Hu1. intros Hin. destruct (Hpall g Hin) as (Hn & _). exact (Hn Hg).
+    { apply (caller_back d sc e st E stL fl2 W2 sc2 e2 E2 st2 stL' Hrel Hd Hvis Hrel2 Hws).
+      - intros g Hg. apply Hinc2. apply in_or_app. right. exact Hg.
+      - intros g Hg. rewrite <- (Hlkf g Hg). apply Hse. destruct Hg as [Hg|Hg]; [left; apply in_or_app; right; exact Hg | right; left; exact Hg].
+      - intros g Hg. rewrite (Hk g (in_or_app _ _ _ (or_intror Hg))). apply Hu1. intros Hin. destruct (Hpall g Hin) as (Hn & _). exact (Hn Hg).
       - lia. }
     destruct Hback as [Hrelc Hcf].
     exists [lv], stL'. splits; [| exact Hvl | exact Hrelc | exact Hcf].
@@ -352,9 +1034,9 @@ Proof.
     cbn [c_body]. apply ExecBlock_of_ExecS; [exact Hx | exact Hnl | intros []]. }
   - (* the body ends: back in the caller *)
     inversion Hap; subst r st'. clear Hap.
-    destruct Hpost as (E' & sg & stL' & sc2 & e2 & Hx & Hsg & Hrel2 & Hse & Hinc2 & Hk & Hnc2).
+    destruct Hpost as (fl2 & W2 & E' & sg & stL' & sc2 & e2 & Hx & Hsg & Hrel2 & Hws & Hse & Hinc2 & Hk & Hnc2).
     assert (Hback : SimDefs.rel pv sv bound u fl W sc e st2 E stL' /\ call_frame bound E stL stL').
-    { apply (caller_back d sc e st E stL sc2 e2 E' st2 stL' Hrel Hd Hvis Hrel2).
+    { apply (caller_back d sc e st E stL fl2 W2 sc2 e2 E' st2 stL' Hrel Hd Hvis Hrel2 Hws).
       - intros g Hg. apply Hinc2. apply in_or_app. right. exact Hg.
       - intros g Hg. rewrite <- (Hlkf g Hg). apply Hse. destruct Hg as [Hg|Hg]; [left; apply in_or_app; right; exact Hg | right; left; exact Hg].
       - intros g Hg. rewrite (Hk g (in_or_app _ _ _ (or_intror Hg))). apply Hu1. intros Hin. destruct (Hpall g Hin) as (Hn & _). exact (Hn Hg).
@@ -385,7 +1067,7 @@ Variable u : counts.
 
 Definition P_all_at (n : nat) (fl : list (N * nat)) (W : world) : Prop :=
   P_eval pv sv bound u fl W n /\ P_exec pv sv bound u fl W n /\ P_execs pv sv bound u fl W n /\
-  P_bv pv sv bound u fl W n /\ P_fb pv sv bound u fl W n /\ P_apply pv sv bound u fl W n.
+  P_bv pv sv bound u fl W n /\ P_body pv sv bound u fl W n /\ P_fb pv sv bound u fl W n /\ P_apply pv sv bound u fl W n.
 
 Lemma P_apply_zero fl W : P_apply pv sv bound u fl W O.
 Proof.
@@ -398,11 +1080,12 @@ Theorem P_all n : forall fl W, P_all_at n fl W.
 Proof.
   induction n as [|n IH]; intros fl W.
   - split; [apply P_eval_zero|]. split; [apply P_stmt_zero|]. split; [apply P_stmt_zero|].
-    split; [apply P_bv_zero|]. split; [apply P_fb_zero | apply P_apply_zero].
-  - destruct (IH fl W) as (IHe & IHs & IHss & IHb & IHf & IHa).
+    split; [apply P_bv_zero|]. split; [apply P_body_zero|]. split; [apply P_fb_zero | apply P_apply_zero].
+  - destruct (IH fl W) as (IHe & IHs & IHss & IHb & IHbd & IHf & IHa).
     split; [apply P_eval_succ; assumption|]. split; [apply P_exec_succ; assumption|].
     split; [apply P_execs_succ; assumption|]. split; [apply P_bv_succ; assumption|].
-    split; [apply P_fb_succ; assumption|].
+    split; [apply P_body_succ; intros fl' W'; apply (IH fl' W')|].
+    split; [apply P_fb_succ; intros fl' W'; apply (IH fl' W')|].
     apply P_apply_succ. intros fl' W'. apply (IH fl' W').
 Qed.
 
